@@ -515,9 +515,10 @@ def rule_de(ctx: Context, R: Reporter, subs: List[ClassInfo]):
         raise AnalysisError(f"C03.d: expected one proposal statement with a normal draw in {m.short}, found {len(props)}")
     pn = props[0]
     # loop-invariant parts hoisted into locals (`centre = mu + a * diff`) are inlined before the sum is split
-    terms = signed_terms(rs.resolve(pn.stmt.value, pn))
+    pval = _unwrap_boundary_map(ctx, m, pn.stmt.value)
+    terms = signed_terms(rs.resolve(pval, pn))
     if len(terms) < 3:
-        terms = signed_terms(pn.stmt.value)
+        terms = signed_terms(pval)
     mu_t = diff_t = noise_t = None
     for (sg, t) in terms:
         rt = _attr_inline(ctx, m, rs.resolve(t, pn))
@@ -716,7 +717,9 @@ def rule_f(ctx: Context, R: Reporter, subs: List[ClassInfo]):
         if len(props) != 1:
             raise AnalysisError(f"C03.f: expected one proposal statement in {m.short}")
         pn = props[0]
-        terms = signed_terms(pn.stmt.value)
+        terms = signed_terms(_unwrap_boundary_map(ctx, m, pn.stmt.value))
+        # hoisted locals (`origin = self.u[k]`) are read through
+        terms = [(sg, t if norm_text(t) == f"self.u[{kparam}]" or not isinstance(t, ast.Name) else rs.resolve(t, pn)) for (sg, t) in terms]
         cur = [(sg, t) for (sg, t) in terms if norm_text(t) == f"self.u[{kparam}]"]
         noise = [(sg, t) for (sg, t) in terms if any(isinstance(x, ast.Call) and (ctx.res.external_name(m, x) or "").startswith("numpy.random.") for x in ast.walk(t))]
         ok = len(terms) == 2 and len(cur) == 1 and cur[0][0] == 1 and len(noise) == 1
@@ -733,6 +736,20 @@ def rule_f(ctx: Context, R: Reporter, subs: List[ClassInfo]):
                 sym = all(len(z.args) >= 2 and norm_text(z.args[0]) == "-" + norm_text(z.args[1]) for z in zc)
             R.check("C03.f", f"{m.short}: the innovation law is symmetric about zero", sym, m, pn.stmt, msg=f"{m.short}: innovation `{unparse(zc[0]) if zc else None}` is not a zero-mean symmetric law", key="rw-symmetric-law")
     R.floor("C03.f", "kernels with identically zero correction", n, 1)
+
+
+def _unwrap_boundary_map(ctx: Context, m: FuncInfo, e: ast.expr) -> ast.expr:
+    """`apply_boundary_conditions(E, periodic, reflective)` -> E: the proposal law is that of E; the fold is the
+    boundary map's own business (C16) and where it is applied C07.c's."""
+    try:
+        from .c07 import bounds_helpers
+
+        bmap, _pred = bounds_helpers(ctx)
+    except Exception:
+        bmap = None
+    if isinstance(e, ast.Call) and e.args and ((bmap is not None and bmap in [t for t in ctx.res.call_targets(m, e) if isinstance(t, FuncInfo)]) or dotted(e.func).split(".")[-1] == "apply_boundary_conditions"):
+        return e.args[0]
+    return e
 
 
 def rule_g(ctx: Context, R: Reporter, base: ClassInfo, subs: List[ClassInfo]):
